@@ -77,3 +77,9 @@ func SaveStep1(s *StateMachine, r SSRequest) (SSMeta, error) { return s.VerifC05
 func SaveStep2(s *StateMachine, meta SSMeta) (pb.Snapshot, SSEnv, error) {
 	return s.VerifC05SaveStep2(meta)
 }
+
+// GetEncoded is rsm.GetEncoded: the Cmd of an EncodedEntry for the payload cmd
+// (what pendingProposal.propose builds for every non-empty command).
+func GetEncoded(ct config.CompressionType, cmd []byte) []byte {
+	return rsm.GetEncoded(rsm.ToDioType(ct), cmd, nil)
+}
